@@ -51,3 +51,16 @@ Fixpoint go_range_from {S R : Type} (i : Z) (l : list Z) (body : Z -> Z -> S -> 
   end.
 Definition go_range {S R : Type} (l : list Z) (body : Z -> Z -> S -> option (S + R)) (s : S) : option (S + R) :=
   go_range_from 0 l body s.
+
+(* for { body }: at most `fuel` rounds; the body maps the loop state to the next state (inl) or to the function's
+   result (inr); None is a panic, and running out of fuel is reported as None as well (the lemmas about the
+   translated functions show that neither happens) *)
+Fixpoint go_loop {S R : Type} (fuel : nat) (body : S -> option (S + R)) (s : S) : option (S + R) :=
+  match fuel with
+  | O => None
+  | Datatypes.S f =>
+      match body s with
+      | Some (inl s') => go_loop f body s'
+      | x => x
+      end
+  end.
